@@ -121,6 +121,8 @@ structure PMem where
   shiftOp : Nat := 0
   shift : Nat := 0
   mode : Nat := 0
+  -- reader state only (not part of the meaning): the displacement has been read, nothing may follow
+  done : Bool := false
   deriving DecidableEq, Repr
 
 inductive POp
@@ -237,66 +239,98 @@ def parseReg (env : Env) (s : Str) : Option PReg :=
 def x86SizeWords : List (String × Nat) :=
   [("byte", 1), ("word", 2), ("dword", 4), ("fword", 6), ("qword", 8), ("tbyte", 10), ("xmmword", 16), ("ymmword", 32), ("zmmword", 64)]
 
-/-- terms of an address expression separated by `+` / `-` (a leading sign is allowed) -/
-def splitTerms (s : Str) : List (Char × Str) :=
-  let rec go : Str → Char → Str → List (Char × Str) → List (Char × Str)
-    | [], sign, cur, acc => ((sign, cur.reverse) :: acc).reverse
-    | c :: rest, sign, cur, acc =>
-      if c = '+' ∨ c = '-' then
-        if cur.isEmpty ∧ acc.isEmpty then go rest c [] acc     -- leading sign
-        else go rest c [] ((sign, cur.reverse) :: acc)
-      else go rest sign (c :: cur) acc
-  go s '+' [] []
+def sizeOfWord (w : Str) : Option Nat := (x86SizeWords.find? fun (n, _) => n.toList == w).map (·.2)
 
 def startsWithDigit : Str → Bool
   | c :: _ => c.isDigit
   | [] => false
 
-def parseX86Mem (env : Env) (s : Str) : Option PMem := do
-  let (pre, rest) ← splitAt? '[' s
-  let inner ← stripSuffix? [']'] rest
-  -- prefix: `dword ptr ` and `fs:`
-  let (size, pre) ←
-    (match x86SizeWords.find? (fun (w, _) => (w.toList ++ " ptr ".toList).isPrefixOf pre) with
-     | some (w, n) => some (n, pre.drop (w.length + 5))
-     | none => some (0, pre) : Option (Nat × Str))
-  let seg ←
-    (if pre.isEmpty then some 0 else
-     match stripSuffix? [':'] pre with
-     | some sn => (match lookupName x86Regs sn with | some (25, i) => some i | _ => none)
-     | none => none : Option Nat)
-  let (addrType, inner) :=
-    match stripPrefix? "abs ".toList inner, stripPrefix? "rel ".toList inner with
-    | some r, _ => (1, r)
-    | _, some r => (2, r)
-    | _, _ => (0, inner)
-  let terms := splitTerms inner
-  let mut m : PMem := { size := size, seg := seg, addrType := addrType }
-  let mut first := true
-  for (sign, t) in terms do
-    if startsWithDigit t then
-      let mag ← parseMagnitude t
-      let v ← if sign = '-' then (if mag ≤ two63 ∧ mag ≠ 0 then some (two64 - mag) else none) else (if mag < two64 then some mag else none)
-      if m.disp ≠ 0 then none
-      m := { m with disp := v }
-    else
-      if sign = '-' then none
-      let (name, scale) ←
-        (match splitAt? '*' t with
-         | some (n, sc) => (parseDec sc).bind fun k => if k = 2 ∨ k = 4 ∨ k = 8 then some (n, k) else none
-         | none => some (t, 1) : Option (Str × Nat))
-      let (home, name) := match name with | '&' :: n => (true, n) | n => (false, n)
-      match parseReg env name with
-      | some r =>
-        if home ∧ !first then none
-        m := { m with terms := m.terms ++ [(r, scale)], home := m.home || home }
-      | none =>
-        let id ← parseLabel env name
-        if !first ∨ scale ≠ 1 ∨ home then none
-        m := { m with label := some id }
-    first := false
-  if m.terms.length > 2 then none
-  return m
+def isLowerAlpha (c : Char) : Bool := 'a' ≤ c && c ≤ 'z'
+
+/-- a text is cut into *pieces*: an optional leading delimiter character and the delimiter-free token after it -/
+abbrev Piece := Option Char × Str
+
+def lexPieces (isD : Char → Bool) : Nat → Str → List Piece
+  | 0, _ => []
+  | _, [] => []
+  | fuel + 1, c :: r =>
+    if isD c then (some c, r.takeWhile (fun x => !isD x)) :: lexPieces isD fuel (r.dropWhile (fun x => !isD x))
+    else (none, (c :: r).takeWhile (fun x => !isD x)) :: lexPieces isD fuel ((c :: r).dropWhile (fun x => !isD x))
+
+/-- `x` with its last character removed if that character is `c` -/
+def dropLast? (c : Char) (s : Str) : Option Str := if s.getLast? = some c then some s.dropLast else none
+
+/-- delimiters inside an x86 address expression -/
+def isX86MemDelim (c : Char) : Bool := c == '+' || c == '-' || c == '*'
+
+def parseScale (k : Str) : Option Nat := (parseDec k).bind fun n => if n = 2 ∨ n = 4 ∨ n = 8 then some n else none
+
+/-- signed magnitude → 64-bit two's complement -/
+def signedDisp (sg : Option Char) (mag : Nat) : Option Nat :=
+  if sg = some '-' then (if mag ≤ two63 ∧ mag ≠ 0 then some (two64 - mag) else none) else (if mag < two64 then some mag else none)
+
+/-- `&name`: the home slot of a (virtual) register -/
+def splitAmp : Str → Bool × Str
+  | '&' :: n => (true, n)
+  | n => (false, n)
+
+/-- one register or label term added to the address read so far -/
+def addX86Term (env : Env) (m : PMem) (tok : Str) : Option PMem :=
+  let home := (splitAmp tok).1
+  let name := (splitAmp tok).2
+  match parseReg env name with
+  | some r =>
+    if m.terms.length ≥ 2 ∨ (home ∧ (m.terms ≠ [] ∨ m.label.isSome)) then none
+    else some { m with terms := m.terms ++ [(r, 1)], home := m.home || home }
+  | none =>
+    match parseLabel env name with
+    | some id => if m.terms ≠ [] ∨ m.label.isSome ∨ home then none else some { m with label := some id }
+    | none => none
+
+/-- reading one piece of an address expression: `*scale` applies to the register just read, a number is the
+    displacement and ends the expression, anything else is a register or label term joined by `+` -/
+def x86MemStep (env : Env) (m : PMem) (p : Piece) : Option PMem :=
+  if m.done then none
+  else if p.1 = some '*' then
+    match m.terms.getLast?, parseScale p.2 with
+    | some (r, 1), some k => some { m with terms := m.terms.dropLast ++ [(r, k)] }
+    | _, _ => none
+  else if startsWithDigit p.2 then
+    (parseMagnitude p.2).bind fun mag => (signedDisp p.1 mag).map fun v => { m with disp := v, done := true }
+  else if p.1 = some '-' then none
+  else addX86Term env m p.2
+
+def interpX86Mem (env : Env) (ps : List Piece) (m : PMem) : Option PMem := ps.foldlM (x86MemStep env) m
+
+/-- `dword ptr ` -/
+def readX86Size (s : Str) : Option Nat × Str :=
+  match stripPrefix? " ptr ".toList (s.dropWhile isLowerAlpha) with
+  | some r => (sizeOfWord (s.takeWhile isLowerAlpha), r)
+  | none => (some 0, s)
+
+/-- `fs:` -/
+def readX86Seg (s : Str) : Option Nat × Str :=
+  match s.dropWhile isLowerAlpha with
+  | ':' :: r => ((match lookupName x86Regs (s.takeWhile isLowerAlpha) with | some (25, i) => some i | _ => none), r)
+  | _ => (some 0, s)
+
+/-- `abs ` / `rel ` -/
+def readX86AddrType (s : Str) : Nat × Str :=
+  match stripPrefix? "abs ".toList s, stripPrefix? "rel ".toList s with
+  | some r, _ => (1, r)
+  | _, some r => (2, r)
+  | _, _ => (0, s)
+
+/-- `[size ptr ][seg:]'[' [abs |rel ] terms ']'` -/
+def parseX86Mem (env : Env) (s : Str) : Option PMem :=
+  (readX86Size s).1.bind fun size =>
+  (readX86Seg (readX86Size s).2).1.bind fun seg =>
+  match (readX86Seg (readX86Size s).2).2 with
+  | '[' :: s3 =>
+    (dropLast? ']' s3).bind fun inner =>
+    let at_ := readX86AddrType inner
+    interpX86Mem env (lexPieces isX86MemDelim at_.2.length at_.2) { size := size, seg := seg, addrType := at_.1 }
+  | _ => none
 
 def parseX86Op (env : Env) (s : Str) : Option POp :=
   if s.contains '[' then (parseX86Mem env s).map .mem
@@ -337,46 +371,47 @@ def parseA64Reg (env : Env) (s : Str) : Option POp := do
     let r ← parseReg env s
     return .reg r none eidx
 
-def parseA64Mem (env : Env) (s : Str) : Option PMem := do
-  let s ← stripPrefix? ['['] s
-  let (pre, s) := match stripSuffix? ['!'] s with | some r => (true, r) | none => (false, s)
-  -- post-index: `[base], rest`; otherwise `[base, rest]`
-  let (mode, parts) ←
-    (match stripSuffix? [']'] s with
-     | some inner => if inner.contains ']' then none else some (if pre then 1 else 0, (splitTop ',' inner).map trimL)
-     | none =>
-       if pre then none else
-       match splitAt? ']' s with
-       | some (b, rest) => some (2, b :: ((splitTop ',' rest).map trimL).drop 1)
-       | none => none : Option (Nat × List Str))
-  let base :: rest := parts | none
-  let mut m : PMem := { mode := mode }
-  let (home, base) := match base with | '&' :: n => (true, n) | n => (false, n)
-  match parseReg env base with
-  | some r => m := { m with terms := [(r, 1)], home := home }
-  | none =>
-    let id ← parseLabel env base
-    if home then none
-    m := { m with label := some id }
-  for p in rest do
-    let ws := splitSpace p
-    match ws with
-    | [] => none
-    | w :: more =>
-      if startsWithDigit w ∨ w.head? = some '-' then
-        if !more.isEmpty ∨ m.disp ≠ 0 then none
-        let v ← parseNumber64 w
-        m := { m with disp := v }
-      else
-        let r ← parseReg env w
-        if m.terms.length ≥ 2 then none
-        m := { m with terms := m.terms ++ [(r, 1)] }
-        match more with
-        | [] => pure ()
-        | [sop] => let k ← shiftOpOfName sop; m := { m with shiftOp := k }
-        | [sop, n] => let k ← shiftOpOfName sop; let n ← parseDec n; m := { m with shiftOp := k, shift := n }
-        | _ => none
-  return m
+def isA64MemDelim (c : Char) : Bool := c == '[' || c == ']' || c == ',' || c == ' ' || c == '!'
+
+def isNumberTok (t : Str) : Bool := startsWithDigit t || (t.head? == some '-' && startsWithDigit t.tail)
+
+/-- closing of an AArch64 address: `]` (offset form), `]!` (pre-index) or nothing more after an already closed `[base]` (post-index) -/
+def interpA64Close (m : PMem) (closed : Bool) : List Piece → Option PMem
+  | [] => if closed then some m else none
+  | [(some ']', [])] => if closed then none else some { m with mode := 0 }
+  | [(some ']', []), (some '!', [])] => if closed then none else some { m with mode := 1 }
+  | _ => none
+
+/-- optional ` uxtw[ 2]` after a register index -/
+def interpA64Shift (m : PMem) (closed : Bool) : List Piece → Option PMem
+  | (some ' ', sop) :: (some ' ', n) :: rest =>
+    (shiftOpOfName sop).bind fun k => (parseDec n).bind fun n => interpA64Close { m with shiftOp := k, shift := n } closed rest
+  | (some ' ', sop) :: rest => (shiftOpOfName sop).bind fun k => interpA64Close { m with shiftOp := k } closed rest
+  | rest => interpA64Close m closed rest
+
+/-- after the base: `, index[ ext[ n]]` or `, offset` -/
+def interpA64Tail (env : Env) (m : PMem) (closed : Bool) : List Piece → Option PMem
+  | (some ',', []) :: (some ' ', t) :: rest =>
+    if isNumberTok t then (parseNumber64 t).bind fun v => interpA64Close { m with disp := v } closed rest
+    else (parseReg env t).bind fun r => interpA64Shift { m with terms := m.terms ++ [(r, 1)] } closed rest
+  | rest => interpA64Close m closed rest
+
+def interpA64Base (env : Env) (tok : Str) : Option PMem :=
+  let home := (splitAmp tok).1
+  let name := (splitAmp tok).2
+  match parseReg env name with
+  | some r => some { terms := [(r, 1)], home := home }
+  | none => if home then none else (parseLabel env name).map fun id => { label := some id }
+
+/-- `[base]`, `[base, off]`, `[base, off]!`, `[base], off`, `[base, index ext n]`, `[base], index` -/
+def parseA64Mem (env : Env) (s : Str) : Option PMem :=
+  match lexPieces isA64MemDelim s.length s with
+  | (some '[', b) :: rest =>
+    (interpA64Base env b).bind fun m =>
+    match rest with
+    | (some ']', []) :: (some ',', []) :: r2 => interpA64Tail env { m with mode := 2 } true ((some ',', []) :: r2)
+    | _ => interpA64Tail env m false rest
+  | _ => none
 
 def parseA64RegList (env : Env) (s : Str) : Option (List PReg) := do
   let s ← stripPrefix? ['{'] s
